@@ -228,10 +228,9 @@ func sm2P256GetScalar(b *[32]byte, a []byte) {
 	n := new(big.Int).SetBytes(a)
 	if n.Cmp(sm2P256.N) >= 0 {
 		n.Mod(n, sm2P256.N)
-		scalarBytes = n.Bytes()
-	} else {
-		scalarBytes = a
 	}
+	// minimal big-endian form: at most 32 bytes also when a carries leading zero bytes
+	scalarBytes = n.Bytes()
 	for i, v := range scalarBytes {
 		b[len(scalarBytes)-(1+i)] = v
 	}
